@@ -189,6 +189,46 @@ def correspondence(ctx: Ctx):
             return _fmt(list(out.shape), fr)
         yield {"line": line("cdiv", *G(a), *G(b)), "impl": _impl(lambda a=a, b=b: T.complex_division(a, b), post),
                "nontrivial": _prod(sa) > 1, "bucket": "cdiv/" + ("general-tol" if general else "dyadic") + ("/with-zeros" if nz else "")}
+    # ---- safe_divide directly (the zero-divisor rule is invisible through complex_division, whose numerators vanish there):
+    #      non-zero numerators over zero / negative-zero divisors, broadcasting shapes
+    for _ in range(40 * n):
+        sa = _cshape(rng, with_slice=False)
+        mode = rng.choice(["same", "same", "bcast1", "drop-lead", "scalar-divisor"])
+        sb = list(sa)
+        if mode == "bcast1":
+            sb[rng.randrange(len(sb))] = 1
+        elif mode == "drop-lead":
+            sb = sb[rng.randint(1, len(sb) - 1):]
+        elif mode == "scalar-divisor":
+            sb = [1]
+        a = _ints(rng, sa, -9, 9)
+        a[a == 0] = 7.0                                   # numerators are never zero
+        b = torch.tensor([rng.choice([0, 0, 1, -1, 2, -2, 4, 8, -4]) for _ in range(_prod(sb))], dtype=torch.float32).reshape(sb)
+        if rng.random() < 0.1:
+            b[...] = 0.0
+        bi = b.clone()
+        bi[(b == 0) & (torch.rand(sb) < 0.5)] = -0.0      # the implementation also sees negative zeros; the protocol sends 0
+        nz = int((b == 0).sum())
+        yield {"line": line("sdiv", *G(a), *G(b)), "impl": _impl(lambda a=a, b=bi: T.safe_divide(a, b)),
+               "nontrivial": nz > 0, "bucket": "safe_divide/" + mode + ("/zero-divisors" if nz else "/no-zero")}
+    # ---- modulus_if_complex: squared modulus when the addressed axis has length 2, the data unchanged otherwise
+    for _ in range(20 * n):
+        sa = _cshape(rng, with_slice=False)
+        kind = rng.choice(["complex-last", "not-complex", "inner-axis"])
+        if kind == "complex-last":
+            shape, ax = sa + [2], -1
+        elif kind == "not-complex":
+            shape, ax = sa + [rng.choice([1, 3])], -1
+        else:
+            pos = rng.randrange(len(sa))
+            shape, ax = sa[:pos] + [2] + sa[pos:], pos
+        x = _ints(rng, shape, -20, 20)
+
+        def post(out, is_c=(shape[ax] == 2)):
+            body = _sq_answer(out) if is_c else _frac_answer(out)
+            return body if body.startswith("err") else f"ok {1 if is_c else 0} | " + body[3:]
+        yield {"line": line("modif", *G(x), [ax]), "impl": _impl(lambda x=x, ax=ax: T.modulus_if_complex(x, complex_axis=ax), post),
+               "nontrivial": x.numel() > 2, "bucket": "modulus_if_complex/" + kind}
     # ---- modulus (squared) with the complex axis anywhere; root_sum_of_squares (squared)
     for _ in range(30 * n):
         sa = _cshape(rng, with_slice=False)
@@ -633,6 +673,58 @@ def _callsite_expr_case(T, rec, seed):
     return bad, None
 
 
+def _safe_divide_case(T, seed):
+    """one random case of safe_divide (everything derived from `seed`) -> (failures, bucket)"""
+    import random
+
+    r = random.Random(seed)
+    dt = r.choice([torch.float32, torch.float32, torch.float64])
+    sa = _cshape(r, with_slice=False)
+    mode = r.choice(["same", "bcast1", "drop-lead", "scalar-divisor"])
+    sb = list(sa)
+    if mode == "bcast1":
+        sb[r.randrange(len(sb))] = 1
+    elif mode == "drop-lead":
+        sb = sb[r.randint(1, len(sb) - 1):]
+    elif mode == "scalar-divisor":
+        sb = [1]
+    g = torch.Generator().manual_seed(r.randrange(2 ** 31))
+    a = (torch.randn(tuple(sa), generator=g) * 5).to(dt)
+    a[a == 0] = 1.0
+    special = r.choice(["plain", "huge-numerator", "inf-numerator"])
+    if special == "huge-numerator":
+        a = a * (1e30 if dt == torch.float32 else 1e300)
+    elif special == "inf-numerator":
+        a.view(-1)[0] = float("inf")
+    b = (torch.randn(tuple(sb), generator=g) * 3).to(dt)
+    zero = torch.rand(tuple(sb), generator=g) < 0.35
+    if r.random() < 0.1:
+        zero[...] = True
+    b[zero] = 0.0
+    b[zero & (torch.rand(tuple(sb), generator=g) < 0.5)] = -0.0
+    a0, b0 = a.clone(), b.clone()
+    bad = []
+    try:
+        q = T.safe_divide(a, b)
+    except Exception as e:  # noqa: BLE001
+        return [("safe_divide-raises", f"safe_divide raises {err_name(e)} on broadcastable operands", repr(e)[:160])], mode
+    zb = torch.broadcast_to(b == 0, q.shape) if q.shape == torch.broadcast_shapes(tuple(sa), tuple(sb)) else None
+    if zb is None:
+        return [("safe_divide-shape", "safe_divide does not broadcast like `/`", list(q.shape))], mode
+    if not bool(torch.all(q[zb] == 0)):
+        bad.append(("safe_divide-zero-divisor", "safe_divide does not return 0 where the divisor is 0 (non-zero numerator)",
+                    {"numerators": torch.broadcast_to(a, q.shape)[zb].tolist()[:4], "observed": q[zb].tolist()[:4]}))
+    ref = torch.broadcast_to(a, q.shape)[~zb] / torch.broadcast_to(b, q.shape)[~zb]
+    if not torch.equal(q[~zb], ref):
+        bad.append(("safe_divide-quotient", "safe_divide differs from input / other where the divisor is non-zero", None))
+    if q.dtype != dt:
+        bad.append(("safe_divide-dtype", f"safe_divide returns {q.dtype} for {dt} operands", str(q.dtype)))
+    same = lambda u, v: bool(torch.all((u == v) | (torch.isnan(u) & torch.isnan(v))))  # noqa: E731
+    if not same(a, a0) or not same(b, b0) or q.data_ptr() in (a.data_ptr(), b.data_ptr()):
+        bad.append(("safe_divide-modifies-input", "safe_divide modifies or aliases one of its operands", None))
+    return bad, mode + "/" + special + ("/float64" if dt == torch.float64 else "")
+
+
 def _native_case(T, seed):
     """one random float case (everything derived from `seed`) -> (failures [(key, what, observed)], nontrivial, bucket)"""
     import random
@@ -731,6 +823,37 @@ def oracle(ctx: Ctx, deep: bool = False):
         yield Violation("mm-accepts-real", "complex_mm accepts non-complex tensors", {"op": "mm-real"})
     except ValueError:
         pass
+    # (1b) safe_divide, stated directly: 0 (exactly, also for non-zero / huge / infinite numerators and for -0.0 divisors) where
+    #      the divisor is 0, input / other elsewhere (bit-exact), broadcasting like `/`, dtype preserved, inputs untouched
+    for _ in range(ctx.budget(60, 600) * (3 if deep else 1)):
+        seed = rng.randrange(2 ** 31)
+        bad, bucket = _safe_divide_case(T, seed)
+        ctx.count(("safe_divide", seed), True, bucket="oracle/safe_divide/" + bucket)
+        for key, what, obs in bad:
+            yield Violation(key, what, {"op": "safe-divide", "seed": seed, "law": key, "observed": obs})
+    # (1c) the remaining named helpers that are otherwise only reached through composites
+    for _ in range(ctx.budget(20, 200)):
+        sa = _cshape(rng, with_slice=False)
+        g = torch.Generator().manual_seed(rng.randrange(2 ** 31))
+        a = torch.randn(tuple(sa) + (2,), generator=g)
+        real = torch.randn(tuple(sa) + (3,), generator=g)
+        ctx.count(("misc-helpers", tuple(sa)), True, bucket="oracle/modulus_if_complex+tensor_to_complex_numpy")
+        try:
+            ok1 = torch.allclose(T.modulus_if_complex(a), _c(a).abs(), atol=1e-5)
+            r = T.modulus_if_complex(real)
+            ok2 = r.shape == real.shape and torch.equal(r, real)
+            z = T.tensor_to_complex_numpy(a)
+            ok3 = z.shape == tuple(sa) and np.array_equal(z, _c(a).numpy())
+            obs = None
+        except Exception as e:  # noqa: BLE001
+            ok1 = ok2 = ok3 = False
+            obs = f"raises {err_name(e)}"
+        if not ok1 or not ok2:
+            yield Violation("modulus_if_complex-definition", "modulus_if_complex is not |z| on complex data / the identity on other data",
+                            {"op": "misc", "shape": sa, "observed": obs})
+        if not ok3:
+            yield Violation("tensor_to_complex_numpy-definition", "tensor_to_complex_numpy differs from re + i·im",
+                            {"op": "misc", "shape": sa, "observed": obs})
     # (2) coil operators: definitions, exact adjointness, linearity, R∘E = id — every coil-axis position -------------
     fams = ["onehot", "half", "normalised"]
     k = 0
@@ -942,6 +1065,9 @@ def replay(rep: dict) -> bool:
                     bad, _ = _callsite_expr_case(T, rec, rep["seed"])
                     return bool(bad)
             return False
+        if op == "safe-divide":
+            bad, _ = _safe_divide_case(T, rep["seed"])
+            return any(k == rep["law"] for k, _, _ in bad)
         if op == "native":
             bad, _, _ = _native_case(T, rep["seed"])
             return any(k == rep["law"] for k, _, _ in bad)
